@@ -297,7 +297,8 @@ def recheck(only_silent=True, jobs=10):
     """Re-run the static checks (current rules) on the demo-killed mutants."""
     path = os.path.join(OUT, "results.json")
     rs = json.load(open(path))
-    todo = [r for r in rs if r["demos_failed"] and
+    ms = {m["id"]: m for m in json.load(open(os.path.join(OUT, "mutants.json")))["mutants"]}
+    todo = [dict(ms.get(r["id"], {}), **r) for r in rs if r["demos_failed"] and
             (r.get("pinned_suite_passes") or not only_silent)]
     with cf.ThreadPoolExecutor(max_workers=jobs) as ex:
         new = {r["id"]: r for r in ex.map(static_only, todo)}
